@@ -477,6 +477,35 @@ def r4_order(ctx):
     ctx.check(ok, cf, "samples computed in the order of the returned names",
               "compute_features returns names in a different order than "
               "the samples were computed")
+    # the sorted list that get_feature_names hands back is not put back
+    # into the order of the caller's `names`
+    assigns = [a for a in walk_no_nested(cf, False)
+               if isinstance(a, ast.Assign) and len(a.targets) == 1
+               and isinstance(a.targets[0], ast.Name)]
+    iterated = {norm(p_.iter) for p_ in ast.walk(cf)
+                if isinstance(p_, ast.For) and any(
+                    call_name(c) == "getattr" for c in calls_in(p_))}
+    flows = set(iterated)
+    for _ in range(3):
+        for a in assigns:
+            if a.targets[0].id in flows and isinstance(a.value, ast.Name):
+                flows.add(a.value.id)
+    for a in assigns:
+        v = a.value
+        if isinstance(v, ast.Call) and call_name(v) in ("list", "tuple") \
+                and v.args:
+            v = v.args[0]
+        if isinstance(v, (ast.ListComp, ast.GeneratorExp)) and \
+                a.targets[0].id in flows and \
+                norm(v.generators[0].iter) == "names" and \
+                "names" in func_params(cf):
+            ctx.fail(a, f"feature list rebuilt in caller order: "
+                     f"{norm(a)[:60]}",
+                     "compute_features rebuilds the list of features by "
+                     "walking the caller's `names`: features and returned "
+                     "names come in the order requested instead of the "
+                     "sorted order of the names (the rater's columns and "
+                     "the training sets use the sorted order)")
     # explicit names: the documented property wants sorted order
     keep = [n for n in walk_no_nested(cf, False) if isinstance(n, ast.If)
             and "names is None" in norm(n.test)]
